@@ -670,6 +670,12 @@ def cases(tier):
             D += _runs(b, [q for q in lat if q % 30 == 0 or q < 2 or q in dst_slots(b["zone"], slots(b["zone"], b["start"], nd, 6, 17))])
             b = mkbase(*KOL, nd, (6, 17))
             D += _points(b, [q for q in lattice(b, tier) if q % 30 == 0 or q < 2 or q >= nslots(b) - 2])
+    # outages of 5, 8 and 25 days in one column (beyond the reach of the primary fill) at the very start, in the middle and at the
+    # very end of the long frames: nothing may remain missing wherever the outage lies
+    for zv in ((CHI_F, KOL) if not thorough else (CHI_F, CHI_B, KOL, SYD_F)):
+        for nd, lengths in ((22, (120, 192)), (43, (120, 192, 600))):
+            b = mkbase(*zv, nd, (6, 17))
+            D += _runs(b, [0, nslots(b) // 2], lengths)
     spaces.append(("D one deviation on the lattice of the long frames", D))
 
     # E. two point deviations on the 4-day frame
